@@ -17,13 +17,16 @@ func Bytes(bytes uint64) string {
 		return fmt.Sprintf("%d B", bytes)
 	}
 
+	// a uint64 reaches 16 EB; the scan never steps past the last unit of the table, whatever
+	// number it is handed (model sizes are reported by the backends)
+	units := []string{"KB", "MB", "GB", "TB", "PB", "EB"}
+
 	div, exp := uint64(unit), 0
-	for n := bytes / unit; n >= unit; n /= unit {
+	for n := bytes / unit; n >= unit && exp < len(units)-1; n /= unit {
 		div *= unit
 		exp++
 	}
 
-	units := []string{"KB", "MB", "GB", "TB", "PB"}
 	return fmt.Sprintf("%.2f %s", float64(bytes)/float64(div), units[exp])
 }
 
